@@ -17,8 +17,8 @@ import (
 func init() {
 	ev.Register(&ev.Spec{
 		ID: "C12", Level: "exploration",
-		Rule: "server: every (msize, version string) pair of a boundary grid (+PRNG pairs) sent as Tversion on a fresh connection, mid-session and repeatedly; client: every (offered version, offered msize, EAGAIN count) answered by a scripted fake server, then every client method exercised with the request-stream monitor on. Non-trivial: the pair reaches the version parser (msize != 0) or the client accepts the reply; distinct by (msize class, string class) / (offer class).",
-		Assume: []string{"internal/wire ParseVersion is the reference reading of version strings", "net.Pipe transport", "numbers with leading zeros or beyond 2^32-1 are ambiguous in the statement: both readings accepted"},
+		Rule:    "server: every (msize, version string) pair of a boundary grid (+PRNG pairs) sent as Tversion on a fresh connection, mid-session and repeatedly; client: every (offered version, offered msize, EAGAIN count) answered by a scripted fake server, then every client method exercised with the request-stream monitor on. Non-trivial: the pair reaches the version parser (msize != 0) or the client accepts the reply; distinct by (msize class, string class) / (offer class).",
+		Assume:  []string{"internal/wire ParseVersion is the reference reading of version strings", "net.Pipe transport", "numbers with leading zeros or beyond 2^32-1 are ambiguous in the statement: both readings accepted"},
 		Shards:  shards(4, 8),
 		Timeout: timeout(5*time.Minute, 30*time.Minute),
 		Run:     runC12,
